@@ -323,7 +323,7 @@ const Property C01 = {
     "exponent/header with the buffer sized so the cut lands at its end, or raw bytes; fed in 1-byte / <=10 / whole / random segments with idle flushes, oversize "
     "chunks, direct SCPI_Parse lines, firmware pushes and allocation/transport faults; input buffers 2..400, queues 1..8, heaps 2..64; torture handler applies every "
     "Param*/Expr*/Result* API with exact-size buffers. Oracle: ASan/UBSan + hook-H1 poisoning, position<length, consumed-after-well-formed, watchdog, progress "
-    "bound. distinct_nontrivial = distinct canonical trace hashes of runs in which a handler ran or an error was raised.",
+    "bound. Also: input buffers up to 100000, SCPI_Init identification strings of any length, no unit table, table padded with up to 400 entries, the torture handler also formats application-made numbers, calls the utils.h number formatters with 0..64-byte buffers, SCPI_Match on exact-size names and SCPI_CommandNumbers with short arrays. distinct_nontrivial = distinct canonical trace hashes of runs in which a handler ran or an error was raised.",
 };
 PropertyRegistrar r01(&C01);
 
